@@ -1550,3 +1550,32 @@ package objects
 //@   at[netofinflight] call resources.SubOnlyExisting#2: assert arg0 == qpc.maxResource && (forall t Key :: has(qpc.allocatedResource, t) ==> rv(arg1, t) == clamp64(rv(qpc.allocatedResource, t) - rv(qpc.preemptingResource, t)))
 //@   at[capped] call resources.ComponentWiseMinOnlyExisting#1: assert arg0 == netPreemptableResource && arg1 == netParentPreemptableResource
 //@   ensures[computed] qpc.preemptableResource != old(qpc.preemptableResource) ==> ncalls(resources.SubOnlyExisting) == 2 && ncalls(resources.ComponentWiseMinOnlyExisting) == 1
+
+// quota-change preemption is started for a queue only if it is managed, not already running, over its maximum and the
+// configured delay has elapsed (start time set and not in the future); a refusal leaves the running flag alone
+//@ spec abstract qpwithin(q *Queue) bool
+//@ spec abstract qpunset(q *Queue) bool
+//@ spec abstract qpnotdue(q *Queue) bool
+//@ func (sq *Queue) tryAcquirePreemption() (ok bool)
+//@   props C08
+//@   mode nopanic=off
+//@   at[usagevsmax] call resources.Resource.StrictlyGreaterThanOrEqualsOnlyExisting#1: assert arg0 == sq.maxResource && arg1 == sq.allocatedResource
+//@   at[within] call resources.Resource.StrictlyGreaterThanOrEqualsOnlyExisting#1 after: assume ret == qpwithin(sq)
+//@   at[unset] call time.Time.IsZero#1 after: assume ret == qpunset(sq)
+//@   at[notdue] call time.Time.Before#1 after: assume ret == qpnotdue(sq)
+//@   ensures[gate] ok ==> sq.isManaged && !old(sq.isQuotaPreemptionRunning) && !qpwithin(sq) && !qpunset(sq) && !qpnotdue(sq) && sq.isQuotaPreemptionRunning
+//@   ensures[refused] !ok ==> sq.isQuotaPreemptionRunning == old(sq.isQuotaPreemptionRunning)
+
+// the walk asks every queue exactly once and does not descend below a queue whose own run was started or is in flight
+//@ func (sq *Queue) TryQuotaPreemption()
+//@   props C08
+//@   sweep
+//@   mode nopanic=off
+//@   at[own] call objects.Queue.tryAcquirePreemption#1: assert arg0 == sq
+//@   at[running] call objects.Queue.getQuotaPreemptionRunning#1 after: assume ret == sq.isQuotaPreemptionRunning
+//@   at[down] call objects.Queue.TryQuotaPreemption#1: assert arg0 == child
+//@   at[notbelowrunning] call objects.Queue.IsLeafQueue#1: assert !sq.isQuotaPreemptionRunning && ncalls(objects.Queue.tryAcquirePreemption) == 1
+//@   loop 1: exhaustive
+//@   loop 1: invariant ncalls(objects.Queue.tryAcquirePreemption) == 1
+//@   loop 1: each ncalls(objects.Queue.TryQuotaPreemption) == iter(ncalls(objects.Queue.TryQuotaPreemption)) + 1
+//@   ensures[asked] ncalls(objects.Queue.tryAcquirePreemption) == 1
